@@ -190,7 +190,7 @@ pub fn parse_entries(s: &str) -> Option<Vec<(String, char)>> {
 
 /// what a bundle generator hands out: parse errors first, then `add_resource` errors
 pub fn build_bundle(
-    locale: Option<LanguageIdentifier>,
+    locale: Vec<LanguageIdentifier>,
     loc_txt: &str,
     brk: u8,
     entries: &[(String, char)],
@@ -205,7 +205,7 @@ pub fn build_bundle(
     if brk == 1 || brk == 3 {
         src.push_str(&format!("dup = P {} dup\ndup = Q {} dup\n", loc_txt, loc_txt));
     }
-    let mut bundle = FluentBundle::new(locale.into_iter().collect());
+    let mut bundle = FluentBundle::new(locale);
     bundle.set_use_isolating(false);
     let mut errors: Vec<FluentError> = vec![];
     let res = match FluentResource::try_new(src) {
